@@ -6,7 +6,7 @@
 From Coq Require Import ZArith QArith Qabs List Bool Arith Permutation Lia.
 From Inkfem Require Import Num.NumOps Gen.GenStiffness Gen.GenLoads Gen.GenRecover Spec.Stiffness Spec.Superposition
   Model.Types Model.Slice Model.Dof Model.Assemble Model.Recover Proofs.RecoverProofs Proofs.ReactionProofs
-  Proofs.FieldProofs Proofs.SystemProofs.
+  Proofs.FieldProofs Proofs.SystemProofs Proofs.ReactionLink.
 Import ListNotations.
 Local Open Scope Q_scope.
 
@@ -91,6 +91,20 @@ Theorem C03_support_forces_in_global_equilibrium : forall n sup u bars (lab : na
 Proof. exact support_forces_in_global_equilibrium. Qed.
 Print Assumptions C03_support_forces_in_global_equilibrium.
 
+(* THE REPORTED REACTIONS.  reaction_at is what solve lists for a node: over the bars that start or end
+   there, the bar-end torsor rebuilt from the first / last listed diagram values, minus the load
+   applied on that bar end.  For a node whose three numbers are shared by every bar end that meets it
+   (rigid links) and occur nowhere else (meets: the bar starts there, ends there, or does not touch
+   it), the reported reaction IS the triple of support forces of the equation form at those numbers -
+   so, by the theorem above, the reported reactions of such supports are what balances the loads. *)
+Theorem C03_reported_reaction_is_support_force : forall (eps : Q) (u : list Q) (bars : list (pbar Q)) (N : nat) (dN : dof3),
+  NoDup (d3_list dN) ->
+  (forall p, In p bars -> length (pb_nodes p) = length (pb_dofs p) /\ meets p N dN) ->
+  tor_eqQ (reaction_at eps bars u N)
+          (support_force u bars (fst (fst dN)), support_force u bars (snd (fst dN)), support_force u bars (snd dN)).
+Proof. exact reported_reaction_is_support_force. Qed.
+Print Assumptions C03_reported_reaction_is_support_force.
+
 (* no force along a direction the support leaves free: an unsupported number with a row has no
    support force at all *)
 Theorem C03_no_support_force_at_free_numbers : forall n bars sup u i,
@@ -158,4 +172,20 @@ Proof.
     (split; [apply no_tiny_b_sound; vm_compute; reflexivity|]);
     (split; [unfold labelled, labelled_node; cbn; repeat split; reflexivity|]);
     (split; [vm_compute; discriminate | vm_compute; reflexivity]).
+Qed.
+
+(* ... and the clamped node 0 of that cantilever meets its only bar as the theorem requires: the
+   reaction solve reports there is (0, -1, -1) *)
+Example C03_reported_reaction_hypotheses_satisfiable :
+  NoDup (d3_list (0, 1, 2)%nat) /\
+  (forall p, In p ex_bars -> length (pb_nodes p) = length (pb_dofs p) /\ meets p 0%nat (0, 1, 2)%nat).
+Proof.
+  split; [repeat constructor; cbn; intuition discriminate|].
+  intros p [<- | []]. split; [reflexivity|]. left. split; [reflexivity|]. split; [discriminate|].
+  eexists _, _, _, _. split; [reflexivity|].
+  split; [intros i Hi; cbn in Hi |- *; intuition (subst; discriminate)|].
+  split; [unfold good_bar; cbn; repeat split; discriminate|].
+  split; [vm_compute; discriminate|].
+  split; [apply no_tiny_b_sound; vm_compute; reflexivity|].
+  vm_compute. repeat split.
 Qed.
